@@ -664,3 +664,506 @@ def fam_K(tier):
                f"export function f(int a, float x, float4 w4, float3x3 m3, int[3] arr) -> {rt}\n{{\n    float fi = 3;\n    return {expr};\n}}\n")
         args = {"a": 2, "x": 1.5, "w4": [1.0, 2.0, 3.0, 4.0], "m3": [[1.0, 2.0, 3.0], [4.0, 5.0, 6.0], [7.0, 8.0, 9.5]], "arr": [5, 6, 7]}
         yield {"fam": "K", "desc": f"site={name}", "src": src, "units": [{"funcs": [], "entry": "f", "inputs": [(args, {})]}]}
+
+
+# =============================================================================================
+# F: break/continue at every leaf position of statement trees (C11)
+# =============================================================================================
+def flow_skeletons(n, allow_block=True):
+    """Like stmt_skeletons but break/continue may appear anywhere; plus 'we' = `while (c);`."""
+    if n == 1:
+        for leaf in ("A", "B", "C", "R", "we"):
+            yield (leaf,)
+        return
+    for body in flow_skeletons(n - 1):
+        yield ("if", body)
+        for kind in ("for", "while", "do"):
+            yield (kind, body)
+    for a in range(1, n - 1):
+        for s1 in flow_skeletons(a):
+            for s2 in flow_skeletons(n - 1 - a):
+                yield ("ifelse", s1, s2)
+    if allow_block:
+        for parts in compositions(n, 2, 3):
+            for kids in itertools.product(*[list(flow_skeletons(p, False)) for p in parts]):
+                yield ("seq",) + kids
+
+
+def bc_positions(sk, in_loop=False):
+    """-> (number of break/continue leaves, number of those outside any loop)"""
+    k = sk[0]
+    if k in ("B", "C"):
+        return 1, 0 if in_loop else 1
+    tot = out = 0
+    for kid in sk[1:]:
+        if isinstance(kid, tuple):
+            a, b = bc_positions(kid, in_loop or k in ("for", "while", "do"))
+            tot += a
+            out += b
+    return tot, out
+
+
+class _FlowBuild(_Build):
+    def __init__(self, variant, unbraced):
+        super().__init__(variant)
+        self.unbraced = unbraced
+
+    def wrap(self, stmts):
+        if self.unbraced and len(stmts) == 1 and stmts[0][0] not in ("decl",):
+            return stmts[0]
+        return ("block", stmts)
+
+    def build(self, sk, counters):
+        k = sk[0]
+        if k == "we":
+            self.feat.add("while-empty")
+            return [("while", ("bin", "<", ("var", "a"), lit(-9)), ("empty",))]
+        if k == "if":
+            c = self.cond(counters)
+            return [("if", c, self.wrap(self.build(sk[1], counters)), None)]
+        if k == "ifelse":
+            c = self.cond(counters)
+            self.feat.add("else")
+            t = self.build(sk[1], counters)
+            # an else-less if as the then-branch of if/else must be braced (dangling else, R1)
+            tw = ("block", t) if (len(t) == 1 and t[0][0] == "if" and t[0][3] is None) else self.wrap(t)
+            return [("if", c, tw, self.wrap(self.build(sk[2], counters)))]
+        if k == "for":
+            self.loops += 1
+            n = self.loops
+            self.feat.add("for")
+            if counters:
+                self.feat.add("nested")
+            cn = f"i{n}"
+            body = self.build(sk[1], counters + [cn])
+            return [("for", ("decl", "int", cn, lit(0)), ("bin", "<", ("var", cn), lit(2 if counters else 3)), ("pre", "++", cn), self.wrap(body))]
+        return super().build(sk, counters)
+
+
+def f_case(sk, variant, unbraced, second=None):
+    b = _FlowBuild(variant, unbraced)
+    body = [("decl", "int", "t", lit(1))] + b.build(sk, []) + [("ret", ("var", "t"))]
+    funcs = [func("f", [("int", "a")], "int", body)]
+    tot, out = bc_positions(sk)
+    if second is not None:
+        b2 = _FlowBuild(variant, unbraced)
+        body2 = [("decl", "int", "t", lit(1))] + b2.build(second, []) + [("ret", ("var", "t"))]
+        funcs.append(func("g", [("int", "a")], "int", body2))
+        t2, o2 = bc_positions(second)
+        tot, out = tot + t2, out + o2
+    expect = "reject" if out else "accept"
+    desc = ("outside-loop" if out else "inside-loop") + ";stmts=" + ",".join(sorted(b.feat)) + (";unbraced" if unbraced else "") + (";two-functions" if second else "")
+    return {"fam": "F", "desc": desc, "expect": expect, "why": f"{out} of {tot} break/continue statements are outside every loop",
+            "units": [{"funcs": funcs, "entry": "f", "inputs": [({"a": v}, {}) for v in (0, 2)]}]}
+
+
+@family("F")
+def fam_F(tier):
+    top = 4 if tier == "quick" else 5
+    for n in range(1, top + 1):
+        for sk in flow_skeletons(n):
+            tot, out = bc_positions(sk)
+            if not (1 <= tot <= 2):
+                continue
+            for unbraced in (False, True):
+                yield (f_case, sk, n % 3, unbraced)
+    if tier == "thorough":
+        for sk in flow_skeletons(6):
+            tot, out = bc_positions(sk)
+            if tot == 1 and _has(sk, ("for", "while", "do")) >= 2:
+                yield (f_case, sk, 0, False)
+    # a second function after one whose body ends inside a loop nest
+    seconds = [("B",), ("C",), ("if", ("B",)), ("seq", ("A",), ("C",)), ("for", ("B",)), ("A",)]
+    for n in (1, 2, 3):
+        for sk in flow_skeletons(n):
+            if _has(sk, ("for", "while", "do")) == 0 or bc_positions(sk)[0] > 1:
+                continue
+            for s2 in seconds:
+                yield (f_case, sk, 0, False, s2)
+
+
+# =============================================================================================
+# N: scope skeletons x one additional declaration at every position x every name (C12)
+# =============================================================================================
+N_KINDS = ("block", "for", "while", "do", "if", "ifelse")
+
+
+N_ACTIVE_KINDS = ["block", "for", "while", "do", "if", "ifelse"]
+
+
+def scope_forest(nodes, depth):
+    """All lists (0..2 statements) of scope-creating statements using exactly `nodes` scope nodes in total.
+    A statement is (kind, body) or ('ifelse', then_body, else_body); a body is such a list."""
+    if nodes == 0:
+        yield []
+        return
+    if depth == 0:
+        return
+    # one statement
+    for st in scope_stmt(nodes, depth):
+        yield [st]
+    # two sibling statements
+    for a in range(1, nodes):
+        for s1 in scope_stmt(a, depth):
+            for s2 in scope_stmt(nodes - a, depth):
+                yield [s1, s2]
+
+
+def scope_stmt(nodes, depth):
+    for kind in ("block", "for", "while", "do", "if"):
+        if kind not in N_ACTIVE_KINDS:
+            continue
+        for body in scope_forest(nodes - 1, depth - 1):
+            yield (kind, body)
+    if nodes >= 2 and "ifelse" in N_ACTIVE_KINDS:
+        for a in range(0, nodes - 1):
+            for b1 in scope_forest(a, depth - 1):
+                for b2 in scope_forest(nodes - 2 - a, depth - 1):
+                    yield ("ifelse", b1, b2)
+
+
+class _NBuild:
+    """Builds the miniast of a scope skeleton; knows every declaration position."""
+
+    def __init__(self, forest, extra_pos, extra_name, second_fn):
+        self.k = 0              # running scope id
+        self.pos = 0            # running position id
+        self.extra_pos = extra_pos
+        self.extra_name = extra_name
+        self.names = []         # all declared names in order (for the name classes)
+        self.npos = 0
+        self.redecl = False
+        self.forest = forest
+        self.loops = 0
+
+    # visibility oracle: stack of sets
+    def declare(self, stack, name):
+        if any(name in s for s in stack):
+            self.redecl = True
+        stack[-1].add(name)
+
+    def atom(self, e):
+        return ("expr", ("asg", "=", ("var", "t"), ("bin", "%", ("bin", "+", ("bin", "*", ("var", "t"), lit(31)), e), lit(MOD))))
+
+    def slot(self, stack, out):
+        """A statement position: the additional declaration goes here if selected."""
+        if self.pos == self.extra_pos:
+            self.declare(stack, self.extra_name)
+            out.append(("decl", "int", self.extra_name, lit(777)))
+            out.append(self.atom(("var", self.extra_name)))
+        self.pos += 1
+
+    def body(self, forest, stack, visible):
+        """Statements of one scope (the scope's own set is stack[-1]); visible = ordered visible locals."""
+        out = []
+        self.k += 1
+        me = f"b{self.k}"
+        self.slot(stack, out)
+        self.declare(stack, me)
+        self.names.append(me)
+        out.append(("decl", "int", me, lit(self.k * 10)))
+        out.append(("expr", ("asg", "=", ("var", me), ("bin", "+", ("var", me), lit(1)))))
+        vis = visible + [me]
+        self.slot(stack, out)
+        for st in forest:
+            out += self.stmt(st, stack, vis)
+            self.slot(stack, out)
+        for v in vis:
+            out.append(self.atom(("var", v)))
+        return out
+
+    def scoped(self, forest, stack, visible, extra_names=()):
+        stack.append(set(extra_names))
+        try:
+            return self.body(forest, stack, visible + list(extra_names))
+        finally:
+            stack.pop()
+
+    def stmt(self, st, stack, visible):
+        kind = st[0]
+        if kind == "block":
+            return [("block", self.scoped(st[1], stack, visible))]
+        if kind == "if":
+            stack.append(set())      # the if statement itself opens a scope (condition + branches)
+            try:
+                return [("if", ("bin", ">", ("var", "a"), lit(0)), ("block", self.scoped(st[1], stack, visible)), None)]
+            finally:
+                stack.pop()
+        if kind == "ifelse":
+            stack.append(set())
+            try:
+                th = ("block", self.scoped(st[1], stack, visible))
+                el = ("block", self.scoped(st[2], stack, visible))
+                return [("if", ("bin", ">", ("var", "a"), lit(0)), th, el)]
+            finally:
+                stack.pop()
+        self.loops += 1
+        n = self.loops
+        if kind == "for":
+            h = f"h{n}"
+            self.names.append(h)
+            stack.append(set())
+            try:
+                self.declare(stack, h)
+                body = ("block", self.scoped(st[1], stack, visible + [h]))
+                return [("for", ("decl", "int", h, lit(0)), ("bin", "<", ("var", h), lit(2)), ("pre", "++", h), body)]
+            finally:
+                stack.pop()
+        # while / do: the loop counter is declared in the enclosing scope just before the loop
+        c = f"w{n}"
+        self.names.append(c)
+        self.declare(stack, c)
+        inc = ("expr", ("asg", "=", ("var", c), ("bin", "+", ("var", c), lit(1))))
+        stack.append(set())          # the loop statement's own scope
+        try:
+            inner = self.scoped(st[1], stack, visible + [c])
+        finally:
+            stack.pop()
+        if kind == "while":
+            return [("decl", "int", c, lit(0)), ("while", ("bin", "<", ("var", c), lit(2)), ("block", [inc] + inner))]
+        return [("decl", "int", c, lit(0)), ("do", ("block", [inc] + inner), ("bin", "<", ("var", c), lit(2)))]
+
+
+def n_build(forest, extra_pos, extra_name, two_fn):
+    b = _NBuild(forest, extra_pos, extra_name, two_fn)
+    stack = [{"g0"}, {"a", "p0"}]        # globals, parameters of f
+    body = [("decl", "int", "t", lit(1))]
+    stack[-1].add("t")
+    stack.append(set())                  # function body block
+    body += b.body(forest, stack, ["p0"])
+    body.append(("ret", ("bin", "+", ("var", "t"), ("var", "g0"))))
+    funcs = [func("f", [("int", "a"), ("int", "p0")], "int", body)]
+    if two_fn:
+        funcs.insert(0, func("g", [("int", "q0")], "int", [("decl", "int", "lq", lit(3)), ("ret", ("bin", "+", ("var", "q0"), ("var", "lq")))], export=False))
+    return b, funcs
+
+
+def n_case(forest, extra_pos, extra_name, two_fn):
+    b, funcs = n_build(forest, extra_pos, extra_name, two_fn)
+    expect = "reject" if b.redecl else "accept"
+    structs = [("SS", [("int", "fld")])]
+    cls = _name_class(extra_name, b)
+    return {"fam": "N", "desc": f"{'redeclaration' if b.redecl else 'no-redeclaration'};name={cls}", "expect": expect,
+            "why": f"additional declaration of '{extra_name}' at position {extra_pos}",
+            "prog": {"structs": structs, "globals": [("int", "g0")]},
+            "units": [{"funcs": funcs, "entry": "f", "inputs": [({"a": v, "p0": 5}, {"g0": 100}) for v in (0, 1)]}]}
+
+
+def _name_class(name, b):
+    if name is None:
+        return "none"
+    if name in ("p0", "a"):
+        return "parameter"
+    if name == "g0":
+        return "global"
+    if name == "t":
+        return "function-level-local"
+    if name == "fld":
+        return "struct-field"
+    if name in ("q0", "lq"):
+        return "other-function"
+    if name == "zz":
+        return "fresh"
+    return {"b": "block-variable", "h": "for-header-variable", "w": "loop-counter"}[name[0]]
+
+
+def n_positions_and_names(forest, two_fn):
+    b, _ = n_build(forest, -1, None, two_fn)
+    return b.pos, list(b.names)
+
+
+@family("N")
+def fam_N(tier):
+    maxnodes = 3 if tier == "quick" else 4
+    for nodes in range(0, maxnodes + 1):
+        # quick: the largest size only over {block, for, if/else}; thorough: all six kinds at every size
+        N_ACTIVE_KINDS[:] = ["block", "for", "ifelse"] if (tier == "quick" and nodes == 3) else list(N_KINDS)
+        forests = list(scope_forest(nodes, 3))
+        N_ACTIVE_KINDS[:] = list(N_KINDS)
+        for forest in forests:
+            npos, names = n_positions_and_names(forest, False)
+            yield (n_case, forest, -1, None, False)          # the skeleton itself (must be accepted)
+            cands = ["p0", "g0", "t", "fld", "zz"] + names
+            for pos in range(npos):
+                for nm in cands:
+                    yield (n_case, forest, pos, nm, False)
+            if nodes <= 2:
+                for pos in range(npos):
+                    for nm in ("q0", "lq"):
+                        yield (n_case, forest, pos, nm, True)
+    # use of a name after its scope closed must be rejected; struct fields / other function's names are not variables
+    for src, expect, desc in N_EXTRA:
+        yield {"fam": "N", "desc": desc, "expect": expect, "src": src, "why": desc, "units": [{"funcs": [], "entry": "f", "inputs": []}]}
+
+
+N_EXTRA = [
+    ("export function f(int a) -> int { { int v = 1; } return v; }", "reject", "use-after-block-closed"),
+    ("export function f(int a) -> int { for (int i = 0; i < 2; ++i) { a = a + 1; } return i; }", "reject", "use-of-for-header-variable-after-loop"),
+    ("export function f(int a) -> int { if (a > 0) { int v = 1; } else { a = v; } return a; }", "reject", "use-in-else-of-then-variable"),
+    ("export function f(int a) -> int { while (a < 0) { int v = 1; } return v; }", "reject", "use-after-while-body"),
+    ("export function f(int a) -> int { a = v; int v = 1; return a; }", "reject", "use-before-declaration"),
+    ("function g(int q) -> int { int w = 2; return q + w; }\nexport function f(int a) -> int { return q; }", "reject", "use-of-other-functions-parameter"),
+    ("function g(int q) -> int { int w = 2; return q + w; }\nexport function f(int a) -> int { return w; }", "reject", "use-of-other-functions-local"),
+    ("struct SS { int fld; }\nexport function f(int a) -> int { return fld; }", "reject", "use-of-struct-field-as-variable"),
+    ("struct SS { int fld; }\nint fld;\nexport function f(int a) -> int { return a; }", "accept", "global-named-like-a-struct-field"),
+    ("struct SS { int fld; }\nstruct TT { int fld; }\nexport function f(int a) -> int { return a; }", "accept", "two-structs-with-the-same-field-name"),
+    ("int g0;\nint g0;\nexport function f(int a) -> int { return a; }", "reject", "global-declared-twice"),
+    ("export function f(int a, int a) -> int { return a; }", "reject", "parameter-declared-twice"),
+    ("export function f(int a) -> int { int v = 1; int v = 2; return v; }", "reject", "same-block-twice"),
+    ("export function f(int a) -> int { for (int i = 0; i < 2; ++i) { int i = 5; a = a + i; } return a; }", "reject", "body-redeclares-for-header-variable"),
+    ("export function f(int a) -> int { for (int i = 0; i < 2; ++i) { a = a + 1; } for (int i = 0; i < 2; ++i) { a = a + 2; } return a; }", "accept", "sibling-for-loops-reuse-header-name"),
+]
+
+
+# =============================================================================================
+# X: static checks on element selection (C13): constant bounds, index type, swizzle masks
+# =============================================================================================
+def _spell(v, base):
+    if base == "dec":
+        return str(v)
+    if base == "hex":
+        return hex(v)
+    return "0" + oct(v)[2:] if v else "00"
+
+
+def x_bounds_cases(tier):
+    elems = [("int", "0"), ("float", "0.0")]
+    dimsets = []
+    for d in (1, 2, 3):
+        for dims in itertools.product((1, 2, 3), repeat=d):
+            if tier == "quick" and d == 3 and sorted(dims) not in ([1, 2, 3], [2, 2, 2], [1, 1, 3]):
+                continue
+            dimsets.append(dims)
+    for et, zero in elems:
+        for dims in dimsets:
+            tdecl = et + "".join(f"[{n}]" for n in dims)
+            for storage in ("global", "local"):
+                for k in range(len(dims)):
+                    for others in ("const", "dyn"):
+                        if others == "dyn" and len(dims) == 1:
+                            continue
+                        for c in range(-2, dims[k] + 2):
+                            for base in ("dec", "hex", "oct"):
+                                if base != "dec" and (c < 0 or (tier == "quick" and c not in (dims[k] - 1, dims[k]))):
+                                    continue
+                                for rw in ("read", "write"):
+                                    idx = []
+                                    for j in range(len(dims)):
+                                        idx.append(_spell(c, base) if j == k else ("0" if others == "const" else "i"))
+                                    chain = "g" + "".join(f"[{x}]" for x in idx)
+                                    ok = 0 <= c < dims[k]
+                                    gdecl = f"{tdecl} g;\n" if storage == "global" else ""
+                                    ldecl = f"{tdecl} g; " if storage == "local" else ""
+                                    if rw == "read":
+                                        body = f"{ldecl}return {chain};"
+                                    else:
+                                        body = f"{ldecl}{chain} = {zero}; return {zero};"
+                                    src = f"{gdecl}export function f(int i) -> {et} {{ {body} }}\n"
+                                    yield {"fam": "X", "expect": "accept" if ok else "reject", "src": src,
+                                           "desc": f"bounds;array;dims={len(dims)};pos={k};{'in' if ok else ('below' if c < 0 else 'above')}-range;{rw}",
+                                           "why": f"constant {c} at dimension {k} of {tdecl}", "units": [{"funcs": [], "entry": "f", "inputs": []}]}
+                # partial chains (fewer indices than dimensions), as an expression statement
+                if len(dims) >= 2:
+                    for k in range(len(dims) - 1):
+                        for c in range(-1, dims[k] + 2):
+                            idx = ["0"] * k + [str(c)]
+                            chain = "g" + "".join(f"[{x}]" for x in idx)
+                            ok = 0 <= c < dims[k]
+                            src = f"{tdecl} g;\nexport function f(int i) -> int {{ {chain}; return 0; }}\n"
+                            yield {"fam": "X", "expect": "accept" if ok else "reject", "src": src,
+                                   "desc": f"bounds;array-partial-chain;dims={len(dims)};pos={k};{'in' if ok else ('below' if c < 0 else 'above')}-range;read",
+                                   "why": f"constant {c} at dimension {k} of {tdecl} (partial chain)", "units": [{"funcs": [], "entry": "f", "inputs": []}]}
+    # vectors and matrices
+    for ct in ("float", "int", "uint"):
+        for n in (2, 3, 4):
+            for c in range(-2, n + 2):
+                for rw in ("read", "write"):
+                    ok = 0 <= c < n
+                    body = f"return v[{c}];" if rw == "read" else f"v[{c}] = 1; return v[0];"
+                    src = f"export function f({ct}{n} v, int i) -> {ct} {{ {body} }}\n"
+                    yield {"fam": "X", "expect": "accept" if ok else "reject", "src": src,
+                           "desc": f"bounds;vector;{'in' if ok else ('below' if c < 0 else 'above')}-range;{rw}", "why": f"component {c} of {ct}{n}",
+                           "units": [{"funcs": [], "entry": "f", "inputs": []}]}
+    for n in (3, 4):
+        for pos in ("row", "col"):
+            for c in range(-2, n + 2):
+                for rw in ("read", "write"):
+                    for other in ("0", "i"):
+                        ok = 0 <= c < n
+                        chain = f"m[{c}][{other}]" if pos == "row" else f"m[{other}][{c}]"
+                        body = f"return {chain};" if rw == "read" else f"{chain} = 1.0; return m[0][0];"
+                        src = f"export function f(float{n}x{n} m, int i) -> float {{ {body} }}\n"
+                        yield {"fam": "X", "expect": "accept" if ok else "reject", "src": src,
+                               "desc": f"bounds;matrix-{pos};{'in' if ok else ('below' if c < 0 else 'above')}-range;{rw}", "why": f"{pos} {c} of float{n}x{n}",
+                               "units": [{"funcs": [], "entry": "f", "inputs": []}]}
+            for c in range(-2, n + 2):
+                ok = 0 <= c < n
+                src = f"export function f(float{n}x{n} m, int i) -> float{n} {{ return m[{c}]; }}\n"
+                yield {"fam": "X", "expect": "accept" if ok else "reject", "src": src, "desc": f"bounds;matrix-row-vector;{'in' if ok else ('below' if c < 0 else 'above')}-range;read",
+                       "why": f"row {c} of float{n}x{n}", "units": [{"funcs": [], "entry": "f", "inputs": []}]}
+
+
+def x_indextype_cases(tier):
+    exprs = [("int-literal", "1", True), ("int-var", "i", True), ("uint-var", "u", True), ("int-expr", "i + 1", True), ("uint-expr", "u + u", True),
+             ("float-literal", "1.0", False), ("float-var", "x", False), ("float-expr", "i * 0.5", False), ("int2-var", "w", False),
+             ("struct-var", "s", False), ("comparison", "i < 2", True), ("int-div", "i / 2", True), ("mixed-sum", "i + x", False)]
+    targets = [("array1", "int[3] g;", "g[{e}]", "int"), ("array2-outer", "int[3][3] g;", "g[{e}][0]", "int"), ("array2-inner", "int[3][3] g;", "g[0][{e}]", "int"),
+               ("vector", "", "v[{e}]", "float"), ("matrix-row", "", "m[{e}][0]", "float"), ("matrix-col", "", "m[0][{e}]", "float")]
+    for tn, gdecl, tmpl, rt in targets:
+        for en, e, ok in exprs:
+            for rw in ("read", "write"):
+                chain = tmpl.format(e=e)
+                body = f"return {chain};" if rw == "read" else f"{chain} = 1; return 0;"
+                if rw == "write" and rt == "float":
+                    body = f"{chain} = 1.0; return 0.0;"
+                src = f"struct SS {{ int fld; }}\n{gdecl}\nexport function f(int i, uint u, float x, int2 w, SS s, float4 v, float4x4 m) -> {rt} {{ {body} }}\n"
+                yield {"fam": "X", "expect": "accept" if ok else "reject", "src": src, "desc": f"index-type;{tn};{en};{rw}",
+                       "why": f"index expression '{e}'", "units": [{"funcs": [], "entry": "f", "inputs": []}]}
+
+
+def mask_ok(mask, n):
+    sets = ("xyzw", "rgba")
+    for st in sets:
+        if all(c in st for c in mask):
+            return all(st.index(c) < n for c in mask)
+    return False
+
+
+def x_mask_cases(tier):
+    maxlen = 3 if tier == "quick" else 4
+    letters = "xyzwrgba"
+    for n in (2, 3, 4):
+        for L in range(1, maxlen + 1):
+            for tup in itertools.product(letters, repeat=L):
+                mask = "".join(tup)
+                ok = mask_ok(mask, n)
+                rt = "float" if L == 1 else f"float{L}"
+                src = f"export function f(float{n} v) -> {rt} {{ return v.{mask}; }}\n"
+                cls = "valid" if ok else ("mixed-sets" if (any(c in "xyzw" for c in mask) and any(c in "rgba" for c in mask)) else "component-beyond-size")
+                yield {"fam": "X", "expect": "accept" if ok else "reject", "src": src, "desc": f"swizzle;read;{cls};len={L}", "why": f"mask {mask} on float{n}",
+                       "units": [{"funcs": [], "entry": "f", "inputs": []}]}
+                if len(set(mask)) == L:
+                    val = "1.0" if L == 1 else f"float{L}(" + ", ".join(f"{k}.0" for k in range(1, L + 1)) + ")"
+                    src = f"export function f(float{n} v) -> float{n} {{ v.{mask} = {val}; return v; }}\n"
+                    yield {"fam": "X", "expect": "accept" if ok else "reject", "src": src, "desc": f"swizzle;write;{cls};len={L}", "why": f"write mask {mask} on float{n}",
+                           "units": [{"funcs": [], "entry": "f", "inputs": []}]}
+        for foreign in "qsuXi":
+            for mask in [foreign] + [foreign + c for c in "xr"] + [c + foreign for c in "xr"]:
+                rt = "float" if len(mask) == 1 else "float2"
+                src = f"export function f(float{n} v) -> {rt} {{ return v.{mask}; }}\n"
+                yield {"fam": "X", "expect": "reject", "src": src, "desc": f"swizzle;read;foreign-letter;len={len(mask)}", "why": f"mask {mask} on float{n}",
+                       "units": [{"funcs": [], "entry": "f", "inputs": []}]}
+    for ct in ("int", "uint"):
+        for mask, n in (("x", 2), ("yx", 2), ("z", 2), ("xyzw", 4), ("wzyx", 4), ("w", 3), ("rgb", 3), ("rgba", 3), ("xg", 4)):
+            ok = mask_ok(mask, n)
+            rt = ct if len(mask) == 1 else f"{ct}{len(mask)}"
+            src = f"export function f({ct}{n} v) -> {rt} {{ return v.{mask}; }}\n"
+            yield {"fam": "X", "expect": "accept" if ok else "reject", "src": src, "desc": f"swizzle;read;{ct};{'valid' if ok else 'invalid'}", "why": f"mask {mask} on {ct}{n}",
+                   "units": [{"funcs": [], "entry": "f", "inputs": []}]}
+
+
+@family("X")
+def fam_X(tier):
+    yield from x_bounds_cases(tier)
+    yield from x_indextype_cases(tier)
+    yield from x_mask_cases(tier)
